@@ -19,6 +19,17 @@ CLAIMED = {
              "corpus' are not observed (parser absent).",
         technique="call-site precondition contracts, static value-set propagation, finite-set inclusion",
         design_ref="§2 C26"),
+    "C30": dict(
+        level="proof",
+        text="set_decimal_config / get_decimal_type / get_decimal_config and the Number column-type selectors are "
+             "symbolically executed from the real source; the documented accept/reject ranges (parsed from "
+             "docs/environment_variables.rst) are proved for ALL integer settings and ALL pre-states of the module "
+             "globals (history independence), not just -5..45. The DECIMAL arithmetic clause of the property is not "
+             "covered (DuckDB semantics, floats).",
+        note="Assumes os.getenv / int(str) contracts, mathematical ints; DuckDB DECIMAL rounding/exactness and the "
+             "float conversion on fetch (_round_significant) are outside the encoding and stay unchecked.",
+        technique="symbolic execution of real Python source to per-path VCs, discharged by z3/cvc5; native replay",
+        design_ref="§2 C30"),
 }
 
 NOT_YET = "not built yet in this round; planned per DESIGN.md §2 (no claim until its check exists and is sound)"
